@@ -283,8 +283,61 @@ func rsAdversaryScenario(kind string, calls int, buf uint, timerThread bool) fun
 	}
 }
 
+// rsDuringCallScenario: the node crashes and listens again (adversary thread) while a call is being issued.
+// The call may legitimately fail - its request may have been lost with the old connection. But if the
+// restarted server has handled the request and sent its reply, the call must receive that reply.
+func rsDuringCallScenario(kind string, buf uint) func() {
+	return func() {
+		w := world.New(world.Opts{N: 1, Window: 4, SendBuffer: buf})
+		if w.Cfg == nil {
+			return
+		}
+		mk := func() *world.Call {
+			c := w.NewCall(kind)
+			if kind == "GRPCCall" {
+				c.Node = 1
+			}
+			c.Ctx = context.Background()
+			c.Verdict = func(inv *world.QFInv) { inv.Level = len(inv.Keys); inv.Quorum = len(inv.Keys) >= 1 }
+			return c
+		}
+		w.Invoke(mk())
+		mc.Quiesce()
+		b := mk()
+		w.Start(b)
+		mc.GoLow("restart", func() { w.FW.Crash(world.Addr(1)); w.FW.Restart(world.Addr(1)) })
+		mc.Quiesce()
+		for i := 0; i < 4 && mc.FireTimers(nil) > 0; i++ {
+			mc.Quiesce()
+		}
+		name := fmt.Sprintf("restart-during-call/%s/buf=%d", kind, buf)
+		handled := false
+		for _, e := range w.EventsOf("exit", 1) {
+			if e.Tok == b.Tok && e.Inc == 1 {
+				handled = true
+			}
+		}
+		done, err := callDone(b)
+		switch {
+		case handled && !done:
+			fail("C10/call-never-returns", classOf(kind), "%s: the restarted server has handled the call's request and replied, the call has not completed", name)
+		case handled && err != nil:
+			fail("C10/reply-lost", classOf(kind), "%s: the restarted server has handled the call's request and sent its reply, but the call was failed with %v", name, err)
+		}
+		mc.Outcome("handled-by-new=%v err=%v", handled, err != nil)
+	}
+}
+
 func rsInstances(tier string) []Instance {
 	var out []Instance
+	for _, kind := range []string{"GRPCCall", "QuorumCall", "QuorumCallAsync"} {
+		for _, buf := range []uint{0, 1} {
+			if buf == 1 && kind != "GRPCCall" && !thorough(tier) {
+				continue
+			}
+			out = append(out, Instance{Name: fmt.Sprintf("restart-during-call/%s/buf=%d", kind, buf), Bound: 2, Root: rsDuringCallScenario(kind, buf)})
+		}
+	}
 	for _, kind := range []string{"GRPCCall", "QuorumCall", "Unicast", "CorrectableStream", "QuorumCallAsync"} {
 		for _, calls := range []int{1, 2} {
 			if (kind == "CorrectableStream" || kind == "QuorumCallAsync") && calls == 2 && !thorough(tier) {
@@ -380,7 +433,7 @@ func rsInstances(tier string) []Instance {
 
 func init() {
 	register(&Check{ID: "C10",
-		Rule:        "fault-sequence enumeration: every script of length <= 4 (5 thorough) over {stop, start, call} that ends with a call, for node 1 initially up or down (down at manager creation included), x call kind {RPC, quorum call on 1 or 2 nodes, unicast} x back-off timers {fired to the horizon after every stop/start, never, or - as a free choice after every event - nothing / only the shortest armed timer / all} x dial mode {non-blocking, blocking}; manager with general and per-node metadata, servers with a connect callback; after each call the script observes at quiescence WITHOUT firing a timer; plus a family in which 1-2 calls are issued during an outage and the node is restarted by an adversary thread at any instant of a script-chosen round (in particular between two steps of a reconnect attempt), optionally with a second adversary thread that lets the armed back-off timers expire at any instant, after which a probe call must be delivered and answered; oracle: (a) a call issued while the node listens is delivered to its current incarnation, (b) once that incarnation's handler has returned the call has its reply with no back-off timer fired, (c) every accepted stream carries both metadata entries and triggers the connect callback exactly once; all schedules within the deviation bound inside each event; an outcome is (instance, accepted streams, incarnations)",
+		Rule:        "fault-sequence enumeration: every script of length <= 4 (5 thorough) over {stop, start, call} that ends with a call, for node 1 initially up or down (down at manager creation included), x call kind {RPC, quorum call on 1 or 2 nodes, unicast} x back-off timers {fired to the horizon after every stop/start, never, or - as a free choice after every event - nothing / only the shortest armed timer / all} x dial mode {non-blocking, blocking}; manager with general and per-node metadata, servers with a connect callback; after each call the script observes at quiescence WITHOUT firing a timer; plus a family in which 1-2 calls are issued during an outage and the node is restarted by an adversary thread at any instant of a script-chosen round (in particular between two steps of a reconnect attempt), optionally with a second adversary thread that lets the armed back-off timers expire at any instant, after which a probe call must be delivered and answered; plus a family in which the node crashes and listens again (adversary thread) while a call is being issued - if the restarted server handled the request and replied, the call must get that reply; oracle: (a) a call issued while the node listens is delivered to its current incarnation, (b) once that incarnation's handler has returned the call has its reply with no back-off timer fired, (c) every accepted stream carries both metadata entries and triggers the connect callback exactly once; all schedules within the deviation bound inside each event; an outcome is (instance, accepted streams, incarnations)",
 		Gen:         rsInstances,
 		Assumptions: []string{"a crash breaks the node's streams immediately (fakegrpc), so the client has noticed the outage at the next quiescent point", "'promptly / never waits out a back-off timer' is decided untimed: no virtual timer is fired between the call and the observation"},
 	})
